@@ -98,6 +98,12 @@ where
     loop {
       // Poll the stream until exhausted
       let this = self.as_mut().project();
+      // stop driving the stream once nobody listens any more (e.g. after a
+      // downstream `take`): the stream may be expensive or unbounded
+      if this.observer.as_ref().map_or(true, |o| o.is_finished()) {
+        this.observer.take();
+        break Poll::Ready(NormalReturn::new(()));
+      }
       let next = ready!(this.stream.poll_next(cx));
 
       match next {
